@@ -349,6 +349,13 @@ def _kappa(tr, fn, which):
                  ast.unparse(n.func) == "simpson", "simpson call for " + name)
     y, x = _kw(simp, "y"), _kw(simp, "x")
     _expect(y is not None and x is not None and not simp.args, "simpson(y=..., x=...)")
+    _only_keywords(simp, ("y", "x"), "simpson")
+    stores = [n for n in ast.walk(fn) if isinstance(n, (ast.Assign, ast.AugAssign)) and any(
+        isinstance(t, ast.Name) and t.id == name for t in (
+            n.targets if isinstance(n, ast.Assign) else [n.target]))]
+    _expect(len(stores) == 2 and all(isinstance(n, ast.Assign) for n in stores) and
+            sorted(ast.unparse(n.value) == "0.0" for n in stores) == [False, True],
+            "%s is initialised to 0.0 and assigned once more (the quadrature)" % name)
     _expect(ast.unparse(x) == "xi", "%s integrates over xi" % name)
     # the block that contains the assignment: check where xi, vPlasma, T, enthalpy come from
     parent = None
@@ -430,11 +437,33 @@ def _find_matching_deton(tr, fn):
     b = first[0].body
     _expect(len(b) == 1 and _norm(ast.unparse(b[0])) ==
             "vp,vm,Tp,Tm=self.matchDetonvwTry", "detonation branch = matchDeton")
+    top = [st for st in fn.body if not (isinstance(st, ast.Expr) and
+                                        isinstance(st.value, ast.Constant))]
+    _expect(len(top) == 2 and isinstance(top[0], ast.If) and isinstance(top[1], ast.Return),
+            "findMatching is exactly `if vwTry > self.vJ: ... else: ...` followed by the return")
     ret = fn.body[-1]
     _expect(isinstance(ret, ast.Return) and _norm(ast.unparse(ret.value)) == "vp,vm,Tp,Tm",
             "findMatching returns (vp, vm, Tp, Tm)")
     tr.facts.append("findMatching: vwTry > vJ  =>  result = matchDeton(vwTry)")
 
+
+
+def _only_keywords(call, allowed, what):
+    extra = [k.arg for k in call.keywords if k.arg not in allowed]
+    _expect(not extra, "%s: no other keywords (%r)" % (what, extra))
+
+
+def _plain_statements(stmts, what):
+    """no bare expression statements besides docstrings/comments-as-strings and logging"""
+    for st in stmts:
+        for n in ast.walk(st):
+            if isinstance(n, ast.Expr):
+                v = n.value
+                ok = (isinstance(v, ast.Constant) and isinstance(v.value, str)) or (
+                    isinstance(v, ast.Call) and isinstance(v.func, ast.Attribute) and
+                    isinstance(v.func.value, ast.Name) and v.func.value.id == "logging")
+                _expect(ok, "%s: unexpected expression statement %s" % (
+                    what, ast.unparse(n)[:60]))
 
 
 def _check_ivp(call, fun, start, y0, events, span_end_max, what):
@@ -566,6 +595,9 @@ def _shoot_residual(tr, fn):
                 _is_attr(_kw(c, "xtol"), "self.atol") and _is_attr(_kw(c, "rtol"), "self.rtol"),
                 "sol = root_scalar(shockTnuclDiff, bracket=[vpmin, .], xtol=self.atol, "
                 "rtol=self.rtol)")
+        _only_keywords(c, ("bracket", "xtol", "rtol"), "root_scalar(shockTnuclDiff)")
+        _expect(len(c.args) == 1, "root_scalar(shockTnuclDiff): one positional argument")
+    _plain_statements(els, "findMatching (deflagration/hybrid)")
     kinds = [type(st).__name__ for st in els if not (isinstance(st, ast.Expr))]
     _expect(kinds == ["Assign", "Assign", "FunctionDef", "Assign", "Assign", "If", "If",
                       "Assign"],
@@ -591,6 +623,19 @@ def _solve_shock_tail(tr, fn):
     for c in calls:
         _expect(_is_attr(_kw(c, "xtol"), "self.atol") and _is_attr(_kw(c, "rtol"), "self.rtol"),
                 "solveHydroShock root finders use xtol=self.atol, rtol=self.rtol")
+        _only_keywords(c, ("bracket", "method", "x0", "x1", "xtol", "rtol"),
+                       "root_scalar(TiiShock)")
+        _expect(len(c.args) == 1, "root_scalar(TiiShock): one positional argument")
+    # the closure reads vmShock, xiShock, TmShock late: they must not change after its def
+    idx = [i for i, st in enumerate(fn.body) if isinstance(st, ast.FunctionDef) and
+           st.name == "TiiShock"]
+    _expect(len(idx) == 1, "one closure TiiShock in solveHydroShock")
+    for st in fn.body[idx[0] + 1:]:
+        for n in ast.walk(st):
+            if isinstance(n, ast.Name) and isinstance(n.ctx, ast.Store):
+                _expect(n.id not in ("vmShock", "xiShock", "TmShock", "vw", "vp", "Tp"),
+                        "no store to %s after TiiShock is defined" % n.id)
+    _plain_statements(fn.body, "solveHydroShock")
     targets = set()
     for n in ast.walk(fn):
         if isinstance(n, ast.Assign) and n.value in calls:
